@@ -474,6 +474,34 @@ def rule_strictenc_hashtypes(ctx: Ctx, rep: Report) -> None:
     rep.floor(rule, 1)
 
 
+def rule_key_encoding_always_judged(ctx: Ctx, rep: Report) -> None:
+    """C08.key_encoding_always_judged: Core's EvalChecksigPreTapscript (and each
+    round of OP_CHECKMULTISIG) runs CheckSignatureEncoding and then
+    CheckPubKeyEncoding before it looks at whether the signature verifies, and
+    an empty signature passes the first: the key's encoding is judged whatever
+    the signature. In the legacy op_checksig no answer is returned on a path
+    that has not been through check_pub_key -- an early `return False` for an
+    empty signature makes `0 <05> CHECKSIG NOT` succeed under STRICTENC where
+    Core says PUBKEYTYPE."""
+    rule = "C08.key_encoding_always_judged"
+    fi = ctx.func(f"{ENG}.script.op_checksig")
+    g = ctx.cfg(fi)
+    gate = [c for c in own_nodes(fi.node) if isinstance(c, ast.Call) and call_name(c) == "check_pub_key"]
+    if not gate:
+        rep.ob(rule, "op_checksig:gate", False, fi.where(), "check_pub_key is not called")
+        return
+    ids = [i for c in gate for i in g.nodes_containing(c)]
+    n = 0
+    for r in own_nodes(fi.node):
+        if not isinstance(r, ast.Return):
+            continue
+        n += 1
+        path = g.path_avoiding(g.nodes_containing(r), ids)
+        rep.ob(rule, f"op_checksig:return@{n}", path is None, fi.where(r), "answered only after the key's encoding was judged" if path is None else
+               f"`{norm(r)}` is reached without check_pub_key: the key's encoding is not judged on that path (Core judges it before the verdict, for an empty signature too)")
+    rep.floor(rule, 3)
+
+
 # ---------------------------------------------------------------------------
 def rule_flags(ctx: Ctx, rep: Report) -> None:
     """C08.flags: the flag enum is Core's, and every flag is consulted by the engine."""
@@ -816,6 +844,7 @@ def rule_foreign_errors(ctx: Ctx, rep: Report) -> None:
 
 
 RULES = [
+    ("C08.key_encoding_always_judged", rule_key_encoding_always_judged),
     ("C08.strictenc_hashtypes", rule_strictenc_hashtypes),
     ("C08.sigops_charge", rule_sigops_charge),
     ("C08.minimalif", rule_minimalif),
